@@ -434,3 +434,23 @@ impl<T: Modeled + parity_scale_codec::HasCompact + CompactWidth> Modeled for Mel
 		1 + 2 * T::min_len()
 	}
 }
+
+/// Element-wise twin of any type: a derived newtype (`TYPE_INFO = Unknown`), so that sequences of
+/// it take the item-by-item paths while sequences of the primitive itself take the bulk paths.
+#[derive(Encode, Decode, DecodeWithMemTracking, PartialEq, Debug, Clone)]
+pub struct Twin<T>(pub T);
+impl<T: Modeled> Modeled for Twin<T> {
+	fn ty(d: usize) -> String {
+		format!("tup 1 {}", T::ty(d))
+	}
+	fn val(&self, out: &mut String, c: bool) {
+		out.push_str("L 1 ");
+		self.0.val(out, c)
+	}
+	fn gen(g: &mut G) -> Self {
+		Twin(T::gen(g))
+	}
+	fn min_len() -> usize {
+		T::min_len()
+	}
+}
